@@ -282,6 +282,18 @@ def mon_c03(ix: Index):
         oc = (end or {}).get("outcome")
         if oc and oc.get("kind") == "return" and isinstance(oc.get("value"), dict) and oc["value"].get("Status") == "SUCCEEDED":
             out.append(V("C03", "C03/success-reported-although-a-record-was-never-accepted", "invocation %d reported SUCCEEDED although API call #%s was lost" % (f["inv"], f.get("n")), end["i"]))
+    # a branch / invocation parks on a retry only once THAT retry record has been accepted (applied after the decision was taken)
+    decided: dict[tuple, dict] = {}
+    for e in ix.trace:
+        if e["kind"] in ("strategy", "wfc_strategy") and (e.get("retry") or e.get("cont")):
+            decided[(e["path"], e["inv"])] = e
+        elif e["kind"] == "susp" and (e.get("path"), e["inv"]) in decided and e.get("opkind") in ("step", "wfc"):
+            d = decided.pop((e["path"], e["inv"]))
+            oid = e.get("oid")
+            ok = any(a.get("u") and a["u"]["Id"] == oid and a["u"]["Action"] == "RETRY" and d.get("aseq", 0) < a["seq"] <= e.get("aseq", 10**12) for a in ix.applied)
+            if not ok:
+                out.append(V("C03", "C03/parked-on-unaccepted-retry-record/%s" % e.get("opkind"),
+                             "%s decided to retry (event %d) and parked (backend status %s) although no RETRY record was accepted in between" % (e["path"], d["i"], e.get("st")), e["i"]))
     for e in ix.trace:
         k = e["kind"]
         if k == "ret":
